@@ -207,3 +207,8 @@ Theorem discipline_now :
   IO_WRITE_ROWS_FLUSHES = true /\ IO_WRITE_POOL_FLUSHES = true /\ IO_WRITE_DATA_FLUSHES = true /\
   IO_PROPSET_WRITE_FLUSHES = true /\ IO_FINISH_PROPAGATES = true /\ IO_FLUSH_PROPAGATES = true /\ IO_EXEC_PROPAGATES = true.
 Proof. repeat split; reflexivity. Qed.
+
+(* Package::create ends with a save of its own (catalog tables, pool, summary): its error is returned to the caller.
+   (A swallowed error there is not repaired by a later flush: the failed flush has consumed the deferred write-back.) *)
+Theorem create_propagates_now : IO_CREATE_PROPAGATES = true.
+Proof. reflexivity. Qed.
